@@ -73,7 +73,10 @@ class Program(object):
                     include_source.read_file()
                 except OSError as error:
                     raise TranslationError("Unable to read [{}]: {}".format(include_filename, error.strerror), statement)
-                include = cls.process_mnemonics(cls.parse(include_source.get_buffer()), including + (include_filename,))
+                try:
+                    include = cls.process_mnemonics(cls.parse(include_source.get_buffer()), including + (include_filename,))
+                except RecursionError:
+                    raise TranslationError("[{}] INCLUDE files are nested too deeply".format(include_filename), statement)
                 processed_statements.extend(include)
             else:
                 processed_statements.extend([statement])
